@@ -63,8 +63,12 @@ class Externals:
             self.mem.memmove(st, args[0], args[1], args[2], ins)
             return [(st, args[0])]
         if name == 'memcmp':
-            self.mem.check(st, 'R', args[0], args[2].a, ins, 'memcmp first operand')
-            self.mem.check(st, 'R', args[1], args[2].a, ins, 'memcmp second operand')
+            if st.store.const_of(args[2].a) == 0:
+                # memcmp(p, q, 0) touches no byte (assumption recorded by the contracts: also when p or q is NULL)
+                self.ops.oblige(st, 'MEM-R', True, ins, 'memcmp of 0 bytes')
+            else:
+                self.mem.check(st, 'R', args[0], args[2].a, ins, 'memcmp first operand')
+                self.mem.check(st, 'R', args[1], args[2].a, ins, 'memcmp second operand')
             r = st.fresh_int('ext:memcmp', 32)
             return [(st, r)]
         if name == 'strlen':
